@@ -543,6 +543,9 @@ func (fr *Frame) callContract(ins *ssa.Call, fn *ssa.Function, fc *FuncContract,
 	if !fc.HasMod && !fc.Pure && !fc.HavocAll {
 		unsup("callee %s has a contract without a modifies clause", fn.Name())
 	}
+	if fc.Assumed {
+		vc.note("contract of %s (aspect %s) is assumed: used at its call sites, not verified against its body", shortFuncName(fn), fc.Aspect)
+	}
 	vars := map[string]TVal{}
 	for i, p := range fn.Params {
 		a := args[i]
